@@ -59,7 +59,7 @@ type Flt struct {
 	Max   int64 `json:"max"`
 }
 
-const minTimestamp = int64(-6795364578871345152)
+const minTimestamp = int64(-9223372036854775808) // model.MinTimestamp (math.MinInt64 since /repo 9fc8f3b; tied to the source by coq/gen/Consts.v)
 const maxTimestamp = int64(9223372036854775807)
 
 func gFlt(f *Flt) string {
